@@ -30,6 +30,10 @@ types, assume_specifications, spec functions, lemmas):
                                           back, kept iff the closure returns true, order of kept elements preserved):
                                           `let mut verif_kept = <container>::new(); for PAT in verif_it: RECV.iter() { if <name>(..) { verif_kept.push_back(*PAT); } } RECV = verif_kept;`
                                       //@lift.pre | <ghost text> goes before that loop, //@lift.post | <ghost text> at the end of its body.
+  //@liftscope <needle> | <name> | <extra locals `a: T, b: U`>   (DESIGN 9.2 rule 16; clauses with //@lift| as for liftretain)
+                                      the statement `W.resource_scope(move |w, mut r: Mut<R>| { BODY });` is rewritten: the closure is lifted into
+                                      `fn <name>(<captures>, w: &mut World, r: Mut<R>) { BODY }` (BODY byte-for-byte) and the statement becomes what Bevy documents for
+                                      resource_scope: `{ let mut verif_res: R = W.verif_scope_take::<R>(); <name>(.., W, &mut verif_res); W.verif_scope_put(verif_res); }`
   //@okmap? <needle>                 (DESIGN 9.2 rule 15) the statement `E.ok().map(|p| CALL);` that starts with <needle> - value discarded - is read as
                                       `if let Ok(p) = E { CALL; }` (std: Result::ok + Option::map call the closure exactly when E is Ok, with its payload);
                                       skipped (recorded) when no such statement exists, e.g. because the code already uses `if let` / `let else`
@@ -302,6 +306,93 @@ def _okmap(body, needle, fname):
     return body[:start] + new + body[end + 1:], {'fn': fname, 'from': re.sub(r'\s+', ' ', stmt) + ';', 'to': new}
 
 
+def _split_top(text):
+    out, depth, cur = [], 0, ''
+    for ch in text + ',':
+        if ch in '([<{': depth += 1
+        elif ch in ')]>}': depth -= 1
+        if ch == ',' and depth == 0:
+            if cur.strip(): out.append(cur.strip())
+            cur = ''
+        else:
+            cur += ch
+    return out
+
+
+def _free_captures(cbody, cands, exclude):
+    caps, seen = [], set(exclude)
+    code = set(j for j, d in rc.code_positions(cbody))
+    for nm, ty in cands:
+        if nm in seen:
+            continue
+        for mm in re.finditer(r'(?<![A-Za-z0-9_.])' + re.escape(nm) + r'(?![A-Za-z0-9_])', cbody):
+            if mm.start() in code:
+                caps.append((nm, ty)); seen.add(nm); break
+    return caps
+
+
+def _lift_scope(body, sig, needle, name, extra, fname):
+    """Rule 16. Returns (new_body, header, closure_body, info)."""
+    rx = re.compile(r'\s*'.join(re.escape(tok) for tok in needle.split()))
+    start = None
+    for j, d in rc.code_positions(body):
+        if rx.match(body, j) and (j == 0 or not (body[j - 1].isalnum() or body[j - 1] == '_')):
+            start = j; break
+    if start is None:
+        raise CutError('fn %s: resource_scope statement not found: %s' % (fname, needle))
+    depth, end = 0, None
+    for k, d in rc.code_positions(body, start):
+        c = body[k]
+        if c in '([{': depth += 1
+        elif c in ')]}': depth -= 1
+        elif c == ';' and depth == 0:
+            end = k; break
+    if end is None:
+        raise CutError('fn %s: end of resource_scope statement not found' % fname)
+    stmt = body[start:end + 1]
+    m = re.match(r'(?s)\s*([A-Za-z_][A-Za-z0-9_]*)\s*\.\s*resource_scope\s*\(\s*(?:move\s+)?\|([^|]*)\|\s*\{', stmt)
+    if not m:
+        raise CutError('fn %s: statement is not `W.resource_scope(|w, r: Mut<R>| { .. });`' % fname)
+    recv = m.group(1)
+    ob = m.end() - 1
+    cb = rc.match_close(stmt, ob)
+    if not re.match(r'(?s)\s*\)\s*;\s*$', stmt[cb + 1:]):
+        raise CutError('fn %s: resource_scope statement has text after the closure' % fname)
+    cbody = stmt[ob:cb + 1]
+    ps = _split_top(m.group(2))
+    if len(ps) != 2:
+        raise CutError('fn %s: resource_scope closure does not have two parameters' % fname)
+    wname = ps[0].split(':')[0].strip()
+    rpat, rty = [x.strip() for x in ps[1].split(':', 1)]
+    rname = rpat[4:].strip() if rpat.startswith('mut ') else rpat
+    mr = re.match(r'Mut\s*<\s*(.*)\s*>$', rty)
+    if not mr:
+        raise CutError('fn %s: resource_scope closure parameter is not Mut<R>' % fname)
+    res = mr.group(1)
+    cands = []
+    for item in [x for x in extra.split(',') if x.strip()]:
+        nm, ty = item.split(':', 1)
+        cands.append((nm.strip(), ty.strip()))
+    po = sig.index('(')
+    pc = rc.match_close(sig, po, '(', ')')
+    for prm in _split_top(sig[po + 1:pc]):
+        if ':' in prm:
+            nm, ty = prm.split(':', 1)
+            nm = nm.strip()
+            if nm.startswith('mut '): nm = nm[4:].strip()
+            if re.match(r'^[A-Za-z_][A-Za-z0-9_]*$', nm):
+                cands.append((nm, ty.strip()))
+    caps = _free_captures(cbody, cands, [wname, rname])
+    params = ', '.join(['%s: %s' % c for c in caps] + ['%s: &mut World' % wname, '%s: %s' % (rname, rty)])
+    args = ', '.join([c[0] for c in caps] + [recv, '&mut verif_res'])
+    header = 'pub fn %s(%s)' % (name, params)
+    new = '{ let mut verif_res: %s = %s.verif_scope_take::<%s>(); %s(%s); %s.verif_scope_put(verif_res); }' % (res, recv, res, name, args, recv)
+    info = {'fn': fname, 'lifted': name, 'captures': ['%s: %s' % c for c in caps], 'closure_sha256': hashlib.sha256(cbody.encode()).hexdigest()[:16],
+            'statement_head': re.sub(r'\s+', ' ', stmt)[:100],
+            'assumed': 'bevy World::resource_scope(f): the resource is removed from the world, f(world, resource) is called once, the resource is put back'}
+    return body[:start] + new + body[end + 1:], header, cbody, info
+
+
 def _desugar_in_params(sig):
     """`In(pat) : In<T>` parameter => `verif_in : In<T>` + `let In(pat) = verif_in;` (Rust's own desugaring)."""
     lets = []
@@ -445,6 +536,9 @@ def expand(template_path, repo='/repo'):
                     clauses.append('        ' + t[4:].strip())
                 elif t.startswith('//@okmap'):
                     okmaps.append(t.split(None, 1)[1].strip())
+                elif t.startswith('//@liftscope'):
+                    nd, nm, extra = [x.strip() for x in t[len('//@liftscope'):].split('|', 2)]
+                    lifts.append({'kind': 'scope', 'needle': nd, 'name': nm, 'extra': extra, 'clauses': [], 'pre': [], 'post': []})
                 elif t.startswith('//@liftretain'):
                     nd, nm, cont, extra = [x.strip() for x in t[len('//@liftretain'):].split('|', 3)]
                     lifts.append({'needle': nd, 'name': nm, 'container': cont, 'extra': extra, 'clauses': [], 'pre': [], 'post': []})
@@ -523,7 +617,10 @@ def expand(template_path, repo='/repo'):
                 else:
                     side.setdefault('skipped_normalizations', []).append('%s: okmap %s (statement not present in this form)' % (name, nd))
             for lf in lifts:
-                body, lh, lb, linfo = _lift_retain(body, sig, lf['needle'], lf['name'], lf['container'], lf['extra'], lf['pre'], lf['post'], name)
+                if lf.get('kind') == 'scope':
+                    body, lh, lb, linfo = _lift_scope(body, sig, lf['needle'], lf['name'], lf['extra'], name)
+                else:
+                    body, lh, lb, linfo = _lift_retain(body, sig, lf['needle'], lf['name'], lf['container'], lf['extra'], lf['pre'], lf['post'], name)
                 lifted_out.append('    #[verifier::exec_allows_no_decreases_clause]\n    ' + lh + '\n' + '\n'.join(lf['clauses']) + '\n    ' + lb)
                 linfo['clauses'] = [c.strip() for c in lf['clauses']]
                 linfo['file'] = f
